@@ -137,3 +137,34 @@ Arguments CT {T U}. Arguments CU {T U}. Arguments Dead {T U}.
 Arguments Call {T U}. Arguments DropT {T U}. Arguments DropU {T U}. Arguments FreeBuf {T U}.
 Arguments FErr {E P}. Arguments FPanic {E P}. Arguments FPanicReplaced {E P}.
 Arguments Done {U E P St}. Arguments Failed {U E P St}. Arguments Refused {U E P St}. Arguments Fault {U E P St}.
+
+(* ---- convert_vec_in_place: the infallible wrapper.  Its converter has no error to return (E = Empty_set); the
+   wrapper hands its input to try_convert_vec_in_place and unwraps the result (fact `delegates`, read from the source
+   by the translator): success gives the vector, a converter panic goes on unwinding, a refusal is the assertion's
+   panic.  `None` = the source is not that delegation: nothing is claimed about it. *)
+Section Wrapper.
+Variables (T U P St : Type).
+Variable conv : St -> T -> option U -> St * option U * outcome U Empty_set P.
+Variables (sizeT alT sizeU alU : N).
+
+Inductive wresult := WDone (out : list U) (s : St) | WPanic (p : P) | WPanicReplaced (p : P) | WRefused | WFault.
+
+Definition unwrap (r : result U Empty_set P St) : wresult :=
+  match r with
+  | Done out s => WDone out s
+  | Failed (FErr e) => match e with end
+  | Failed (FPanic p) => WPanic p
+  | Failed (FPanicReplaced p) => WPanicReplaced p
+  | Refused => WRefused
+  | Fault => WFault
+  end.
+
+Definition wrapper (delegates : bool) (fl : flags) (input : list T) (s0 : St) : option (wresult * list (ev T U)) :=
+  if delegates
+  then let '(r, log) := run T U Empty_set P St conv sizeT alT sizeU alU fl input s0 in Some (unwrap r, log)
+  else None.
+
+Definition wrapper_spec (input : list T) (s0 : St) : wresult * list (ev T U) :=
+  let '(r, log) := spec_run T U Empty_set P St conv sizeT alT sizeU alU input s0 in (unwrap r, log).
+End Wrapper.
+Arguments WDone {U P St}. Arguments WPanic {U P St}. Arguments WPanicReplaced {U P St}. Arguments WRefused {U P St}. Arguments WFault {U P St}.
